@@ -128,6 +128,13 @@ CLAIMED["C38"] = {
   "design_ref": "DESIGN.md section 4 C38",
 }
 
+CLAIMED["C33"] = {
+  "text": "Static decision of the state-restoration and batched-indexing clauses: set_const_0 / set_const_spring / set_const restore every integration-state field they overwrite on every path as the last write; with restore=True every Data field computed at the temporary state is recomputed after the restore; every batched field the set_const kernels read or write is indexed by the thread's batch index modulo that field's own size; launch bindings conform.",
+  "note": STATIC_NOTE,
+  "technique": "save/restore pairing and write-set inclusion on host effect traces (R-PAIR) + R-BATCH + R-BIND",
+  "design_ref": "DESIGN.md section 4 C33",
+}
+
 NOT_APPLICABLE = {
   "C06": "optimality of an iterative float solve is a runtime quantity; no structural necessary condition beyond what C24/C25 decide",
   "C18": "equivalence of broadphases depends on geometric conservativeness of numeric filters and sort/scan arithmetic; a sibling text-diff of the NXN/SAP kernels would alarm on harmless refactors",
